@@ -207,6 +207,21 @@ func suiteHubSubs(o *Out, r *Rng, n int, tier string) {
 			}
 			go sr.src.Run()
 		}
+		// two more subscribers that never read, obtained one after the other with no hub event in between: they run out of
+		// buffer on the very same event, and each of them must be dropped
+		var extra []bstream.Source
+		var extraFrom []uint64
+		if neverReads && r.Intn(2) == 0 {
+			nop := bstream.HandlerFunc(func(*pbbstream.Block, interface{}) error { return nil })
+			hn := fh.HeadNum()
+			if x := fh.SourceFromBlockNum(hn, nop); x != nil {
+				extra, extraFrom = append(extra, x), append(extraFrom, hn)
+			}
+			if x := fh.SourceFromBlockNumWithForks(hn-2, nop); x != nil {
+				extra, extraFrom = append(extra, x), append(extraFrom, hn-2)
+			}
+			o.Stat("hubsubs.two_more_never_reading_subscribers", 1)
+		}
 		caughtUp := func(num uint64) bool {
 			for j, sr := range subs {
 				if j == victim || sr.src == nil {
@@ -288,6 +303,10 @@ func suiteHubSubs(o *Out, r *Rng, n int, tier string) {
 			}
 			o.Impl("sub %d %d-%d/%d contiguous=%d", j, fst, lst, len(sr.got), contig)
 			sr.mu.Unlock()
+		}
+		for x, src := range extra {
+			o.Op("sub v%d %d", x, extraFrom[x])
+			o.Impl("sub v%d dropped=%d", x, b2i(src.IsTerminating() && src.Err() != nil))
 		}
 		o.End()
 		fh.Shutdown(nil)
@@ -445,6 +464,7 @@ func suiteShutdown(o *Out, r *Rng, n int, tier string) {
 		// ---- eternal source
 		for _, where := range []string{"before-run", "in-factory-1", "in-factory-2", "in-handler", "during-restart-delay", "after-empty-source"} {
 			l := &handlerLog{failAtK: -1}
+			secondShape := uint64(r.Intn(3))
 			var es *bstream.EternalSource
 			var inner []bstream.Source
 			var imu sync.Mutex
@@ -460,9 +480,11 @@ func suiteShutdown(o *Out, r *Rng, n int, tier string) {
 				// eternal source restarts
 				c := calls
 				base := uint64(10 * c)
+				// the second block of an incarnation is higher than the first, a fork sibling at the same height, or a block
+				// of a shorter branch: the restart point is the last block *accepted*, whatever its height
 				blocks := []TBlock{
 					{ID: fmt.Sprintf("%da", base+1), Parent: "p", Num: base + 1},
-					{ID: fmt.Sprintf("%da", base+2), Parent: fmt.Sprintf("%da", base+1), Num: base + 2}}
+					{ID: fmt.Sprintf("%da", base+2), Parent: fmt.Sprintf("%da", base+1), Num: base + 2 - secondShape}}
 				if where == "after-empty-source" && c == 2 {
 					blocks = nil // the second incarnation fails before it delivers anything
 				}
